@@ -648,6 +648,9 @@ func (x *Exec) external(fn *ssa.Function, args []Val) (Val, bool) {
 	case "unicode.ToUpper", "unicode.ToLower", "unicode.IsUpper", "unicode.IsLetter":
 		r := x.subst(args[0].(Int))
 		if !r.conc() {
+			if x.initOK["unicode"] {
+				return nil, false // interpreted from the standard library's source and tables
+			}
 			panic(unsupported{name + " on symbolic rune"})
 		}
 		switch name {
